@@ -86,7 +86,7 @@ static inline QXmppTransferJob *QListJobs_at(const QListJobs *l, int i) {
   return l->o;
 }
 int gh_found_idx;                     /* ghost hook in the lookups: index at which the returned job was found */
-QXmppTransferJob *gh_job;             /* ghost hook in the handlers: the job the lookup returned */
+QXmppTransferJob *gh_job;             /* ghost hook in the lookups: the job the look-up returned (NULL: none yet / none found) */
 /* hand-over log, written by the ghost hook at the entry of QXmppTransferIncomingJob::writeData */
 struct gh_wd_s { int calls; QXmppTransferJob *job; qbytes data; } gh_wd;
 #define gh_wd_calls gh_wd.calls
